@@ -58,6 +58,10 @@ class C07(Prop):
                 P = [list(P[0]) for _ in range(n)]; sp = [1] * n; sp[rng.randrange(n)] = rng.choice([2, 3, 4]); ps = False
             c = dict(entry=("ProbabilisticSerial.scf" if ps else "SimultaneousEating.scf"), family=("lottery_incomplete" if inc else "lottery"),
                      P=P, speeds=sp, zi=bool(i % 3 == 0), seed=i, dtype=("float" if inc else rng.choice(["int64", "float"])))
+            if not inc and not ps and i % 12 in (3, 9):      # the same relative speeds in a much slower or faster unit (exact powers of two): the lottery must still be drawn
+                from fractions import Fraction
+                u = Fraction(2) ** [-40, -300, -1000, 60, 1000, -1010][(i // 12) % 6]      # (not the subnormals: 1 / speed must stay finite)
+                c["speeds"] = [float(Fraction(x) * u) for x in sp]; c["family"] = "lottery_clock_unit"
             if not inc and i % 4 == 1:      # history: the same rule object was used on the same profile object with other speeds first
                 c["pre_speeds"] = [rng.choice([1, 2, 4, 5]) for _ in range(n)]; c["family"] = "lottery_history"
             if not inc and i % 4 == 3:      # history: same rule object, same profile object, contents edited in place between the calls
